@@ -20,6 +20,7 @@ type Clause struct {
 
 type LoopSpec struct {
 	Invariants []Clause
+	Steps      []Clause // checked at the end of every iteration (and at exits from inside the body); may use prev(e)
 }
 
 type FuncSpec struct {
@@ -35,6 +36,7 @@ type FuncSpec struct {
 	Trusted   bool              // body is not verified (external / assumed contract)
 	Pure      bool              // callee modifies nothing and the contract is a function of the args
 	AssumePre map[string]string // callee key suffix -> reason: preconditions of these callees are assumed here, not proved
+	TraceChans bool             // channel sends/receives of this function are recorded in the ghost trace (chansend/chanrecv)
 	Traced    bool              // every call is also recorded in the ghost call trace (method name = function name)
 	MayPanic  bool              // abstract callees may panic inside this function (exceptional paths are explored)
 	Params    []string          // for assumed contracts of functions without source: parameter names
@@ -70,7 +72,14 @@ type Guard struct {
 	Fields map[string]bool
 }
 
+type ChanInv struct {
+	Var  string   // name bound to the message
+	Recv []Clause // assumed when a message is received from the channel held in this field
+	Send []Clause // proved when a message is sent on it
+}
+
 type Contracts struct {
+	ChanInvs map[string]*ChanInv // "Type.field" -> message invariant of the channel stored there
 	Guards map[string]*Guard // struct type name -> fields guarded by a mutex field
 	Funcs map[string]*FuncSpec
 	Pures map[string]*PureFunc
@@ -227,7 +236,7 @@ func parseSpecExpr(text string) (ast.Expr, error) {
 
 var clauseKeywords = map[string]bool{"func": true, "pure": true, "requires": true, "ensures": true, "modifies": true,
 	"invariant": true, "assume": true, "prop": true, "inline": true, "trusted": true, "iter": true, "site": true,
-	"ghost": true, "params": true, "results": true, "purefn": true, "opaque": true, "guarded": true, "maypanic": true, "traced": true, "assumepre": true}
+	"ghost": true, "params": true, "results": true, "purefn": true, "opaque": true, "guarded": true, "maypanic": true, "traced": true, "assumepre": true, "step": true, "chanrecv": true, "chansend": true, "tracechans": true}
 
 func (c *Contracts) parseFile(path string) error {
 	data, err := os.ReadFile(path)
@@ -312,6 +321,26 @@ func (c *Contracts) parseFile(path string) error {
 				return fail(err)
 			}
 			c.Pures[name] = &PureFunc{Name: name, Params: params, Body: e, Text: text, Opaque: cl.kw == "opaque"}
+		case "chanrecv", "chansend":
+			// chanrecv <Type.field> <var> [label:] expr   |   chansend <Type.field> <var> [label:] expr
+			f := strings.SplitN(cl.rest, " ", 3)
+			if len(f) < 3 {
+				return fail(fmt.Errorf("%s <Type.field> <var> expr", cl.kw))
+			}
+			ci := c.ChanInvs[f[0]]
+			if ci == nil {
+				ci = &ChanInv{Var: f[1]}
+				c.ChanInvs[f[0]] = ci
+			}
+			k, err := mkClause(strings.TrimSpace(f[2]), len(ci.Recv)+len(ci.Send), "m")
+			if err != nil {
+				return fail(err)
+			}
+			if cl.kw == "chanrecv" {
+				ci.Recv = append(ci.Recv, k)
+			} else {
+				ci.Send = append(ci.Send, k)
+			}
 		case "guarded":
 			// guarded <Type> <mutex field> <field> <field> ...
 			f := strings.Fields(cl.rest)
@@ -402,6 +431,23 @@ func (c *Contracts) parseFile(path string) error {
 					return fail(err)
 				}
 				ls.Invariants = append(ls.Invariants, k)
+			case "step":
+				// step <loop ordinal> [label:] expr     per-iteration contract; prev(e) = value of e at the head of the iteration
+				f := strings.SplitN(cl.rest, " ", 2)
+				n, err := strconv.Atoi(f[0])
+				if err != nil || len(f) < 2 {
+					return fail(fmt.Errorf("step needs a loop ordinal"))
+				}
+				ls := cur.Loops[n]
+				if ls == nil {
+					ls = &LoopSpec{}
+					cur.Loops[n] = ls
+				}
+				k, err := mkClause(strings.TrimSpace(f[1]), len(ls.Steps), fmt.Sprintf("s%d_", n))
+				if err != nil {
+					return fail(err)
+				}
+				ls.Steps = append(ls.Steps, k)
 			case "site":
 				// site <name> [label:] expr     invariant for an iterator call site
 				f := strings.SplitN(cl.rest, " ", 2)
@@ -428,6 +474,8 @@ func (c *Contracts) parseFile(path string) error {
 				cur.MayPanic = true
 			case "traced":
 				cur.Traced = true
+			case "tracechans":
+				cur.TraceChans = true
 			case "assumepre":
 				if cur.AssumePre == nil {
 					cur.AssumePre = map[string]string{}
@@ -474,7 +522,7 @@ func (c *Contracts) parseFile(path string) error {
 }
 
 func newContracts() *Contracts {
-	return &Contracts{Funcs: map[string]*FuncSpec{}, Pures: map[string]*PureFunc{}, Props: map[string][]string{}, Guards: map[string]*Guard{}}
+	return &Contracts{Funcs: map[string]*FuncSpec{}, Pures: map[string]*PureFunc{}, Props: map[string][]string{}, Guards: map[string]*Guard{}, ChanInvs: map[string]*ChanInv{}}
 }
 
 func globMatch(pat, s string) bool {
